@@ -225,6 +225,9 @@ class Wallet:
             if account.encrypted:
                 if not account.decrypt(password):
                     return False
+                # record the password before yielding to the event loop: a save() running while the key
+                # cache is primed would otherwise find no password and write the decrypted account in clear
+                self.encryption_password = password
                 await account.deterministic_channel_keys.ensure_cache_primed()
         self.encryption_password = password
         return True
